@@ -34,7 +34,10 @@ def alphabet(tier: str, variant: str = "full") -> Tuple[List[List[tuple]], List[
           [PTR(TA, X, 4500), ("SRV", X, FL, 120, 0, 0, 80, "h.local."), ("TXT", X, FL, 4500, b"\x01a"),
            ("A", "h.local.", FL, 120, IP)],
           [("SRV", X, FL, 120, 0, 0, 80, "h.local.")], [("A", "h.local.", FL, 120, IP)], [("TXT", X, FL, 4500, b"\x01b")],
-          [PTR(TB, Z, 4500)], [PTR(TB, Z, 0)]]
+          [PTR(TB, Z, 4500)], [PTR(TB, Z, 0)],
+          # a changed record of an instance travelling *before* that instance's goodbye in the same datagram
+          [("TXT", X, FL, 4500, b"\x01c"), PTR(TA, X, 0)], [("SRV", X, FL, 120, 0, 0, 81, "h.local."), PTR(TA, X, 0)],
+          [("TXT", X, FL, 4500, b"\x01d"), PTR(TA, X, 4500)]]
     if tier != "quick":
         d += [[PTR(TA, Y, 1125)], [PTR(TA, Y, 4500, FL)], [PTR(TA, X, 2)], [PTR(TA, X, 0), PTR(TB, Z, 4500)],
               [PTR(TA, Y, 0), PTR(TA, X, 0)], [("SRV", X, FL, 0, 0, 0, 80, "h.local.")], [("A", "h.local.", FL, 0, IP)],
